@@ -123,9 +123,9 @@ Theorem style_read_after_attr_remove : forall ops n names,
 Proof. exact DomProofs.style_read_after_attr_remove. Qed.
 Print Assumptions style_read_after_attr_remove.
 
-(* RemoveAttribute without dropping the parsed styles (the tree before the
-   repair proposed with this check): a style read after ATTR_REMOVE(e, "style")
-   still returns the removed declarations *)
+(* RemoveAttribute without dropping the parsed styles (the tree before its
+   repair): a style read after ATTR_REMOVE(e, "style") still returns the removed
+   declarations *)
 Theorem remove_style_pinned_refuted : exists ops n, w_run false ops (fresh n) <> sp_run ops n.
 Proof. exact DomProofs.remove_style_pinned_refuted. Qed.
 Print Assumptions remove_style_pinned_refuted.
